@@ -47,6 +47,41 @@ func main() {
 		debugDump(w, *debug, flag.Args())
 		return
 	}
+	if *prop == "all" || strings.Contains(*prop, ",") {
+		// sweep mode (checker self-tests only, never registered as a check):
+		// one load, several properties, one summary line per property
+		var ids []string
+		if *prop == "all" {
+			for k := range properties {
+				ids = append(ids, k)
+			}
+		} else {
+			ids = strings.Split(*prop, ",")
+		}
+		sort.Strings(ids)
+		w, err := Load(*repo, "", false)
+		if err != nil {
+			fmt.Println("SWEEP load-failed:", err)
+			os.Exit(3)
+		}
+		worst := 0
+		for _, id := range ids {
+			pf, ok := properties[id]
+			if !ok {
+				continue
+			}
+			r := NewReport(id, *tier, *verif)
+			r.W = w
+			r.Variants = append(r.Variants, "native/"+w.CGKind)
+			runSafely(pf, w, r)
+			rc := r.Finish(0)
+			fmt.Printf("SWEEP %s exit=%d\n", id, rc)
+			if rc > worst {
+				worst = rc
+			}
+		}
+		os.Exit(worst)
+	}
 	pf, ok := properties[*prop]
 	if !ok {
 		var ids []string
